@@ -25,7 +25,7 @@ Qed.
 Theorem save_reset_load_iso s :
   wf s -> exists s', save_reset_load s = Some s' /\ iso s s'.
 Proof.
-  intro Hw. destruct (load_save_iso s Hw) as (a & s' & Hs & Hl & Hi).
+  intro Hw. destruct (load_save_iso s Hw) as (a & s' & Hs & Hl & Hi & _).
   exists s'. unfold save_reset_load. rewrite Hs. auto.
 Qed.
 
@@ -78,16 +78,18 @@ Proof.
   intros [<-|Hin]; [exists b; auto|]. destruct (IH Hin) as (y & Hy & Hxy). exists y. auto.
 Qed.
 
-Lemma env_rel_ok m e1 e2 n1 n2 : env_rel m e1 e2 -> bounded m n1 n2 -> forall x r, In (x, VArr r) e2 -> r < n2.
+Lemma env_rel_ok m e1 e2 n1 n2 : env_rel m e1 e2 -> bounded m n1 n2 -> env_ok e2 n2.
 Proof.
-  intros H Hb. induction H as [|[x1 v1] [x2 v2] l1 l2 [Hx Hv] _ IH]; cbn; [tauto|].
-  intros x r [E|Hin]; [|eauto]. inversion E; subst. cbn in Hv.
-  destruct v1 as [|r1]; [contradiction|]. apply Hb in Hv. tauto.
+  intros H Hb. induction H as [|[x1 v1] [x2 v2] l1 l2 [Hx Hv] _ IH]; [intros ? ? []|].
+  intros x v [E|Hin]; [|eapply IH; eauto]. inversion E; subst. cbn in Hv.
+  destruct v1, v; cbn in *; try contradiction; auto; apply Hb in Hv; tauto.
 Qed.
 
-Theorem iso_wf s1 s2 : iso s1 s2 -> wf s1 -> wf s2.
+(* everything of wf except the bound on unreachable holders follows from iso *)
+Theorem iso_wf s1 s2 : iso s1 s2 -> wf s1 -> heap_ok (heap s2) (nextr s2) -> wf s2.
 Proof.
-  intros (hm & He & (i & Hpi & Hfi) & _ & _ & _ & _ & _ & _ & Hb & Hbd) (Hnd & Hp & Hbn & Hok).
+  intros (hm & m & He & (i & Hpi & Hfi) & _ & _ & _ & _ & _ & _ & _ & Hb & Hbd & Hbm & Hbdm)
+         (Hnd & Hp & Hbn & Hok & _) Hheap.
   assert (HL : Forall2 (fun a b => In (a, b) hm) (concat i) (concat (insts s2))).
   { apply Forall2_concat. exact Hfi. }
   assert (HE : Forall2 (fun a b => In (a, b) hm) (map eh (elems s1)) (map eh (elems s2))).
@@ -98,10 +100,10 @@ Proof.
     - rewrite !app_assoc. apply Permutation_app_tail, Permutation_app_comm.
     - eapply perm_trans; eauto. }
   assert (Hnd1 : NoDup (concat i)) by (eapply Permutation_NoDup; eauto).
-  assert (Hnd2 : NoDup (concat (insts s2))) by (eapply rel_nodup; eauto).
+  assert (Hnd2 : NoDup (concat (insts s2))) by (apply (rel_nodup hm _ _ Hb HL Hnd1)).
   assert (HndE1 : NoDup (map eh (elems s1))) by (eapply Permutation_NoDup; eauto).
-  assert (HndE2 : NoDup (map eh (elems s2))) by (eapply rel_nodup; eauto).
-  split; [exact Hnd2|]. split; [|split].
+  assert (HndE2 : NoDup (map eh (elems s2))) by (apply (rel_nodup hm _ _ Hb HE HndE1)).
+  split; [exact Hnd2|]. split; [|split; [|split]].
   - apply NoDup_Permutation; auto. intro y. split; intro Hy.
     + destruct (rel_in_r _ _ _ _ HL Hy) as (x & Hx & Hxy).
       assert (Hx' : In x (map eh (elems s1))).
@@ -114,8 +116,18 @@ Proof.
       destruct (rel_in_l _ _ _ _ HL Hx') as (y' & Hy' & Hxy').
       assert (y = y') by (apply (Hb x y x y' Hxy Hxy'); reflexivity). now subst.
   - intros h Hh. destruct (rel_in_r _ _ _ _ HL Hh) as (x & _ & Hxy). apply Hbd in Hxy. tauto.
-  - clear -He. induction He as [|a b l1 l2 [_ (_ & _ & m & Hev & _ & _ & Hbm)] _ IH]; constructor; auto.
-    intros x r Hin. eapply env_rel_ok; eauto.
+  - clear -He Hbdm. induction He as [|a b l1 l2 [_ (_ & _ & Hev)] _ IH]; constructor; auto.
+    eapply env_rel_ok; eauto.
+  - exact Hheap.
+Qed.
+
+(* the loaded state is saveable again *)
+Theorem loaded_state_wf s :
+  wf s -> exists s', save_reset_load s = Some s' /\ iso s s' /\ wf s'.
+Proof.
+  intro Hw. destruct (load_save_iso s Hw) as (a & s' & Hs & Hl & Hi & Hh).
+  exists s'. unfold save_reset_load. rewrite Hs. split; [exact Hl|]. split; [exact Hi|].
+  eapply iso_wf; eauto.
 Qed.
 
 Theorem reachable_wf c ops s : state_after (init c) ops = Some s -> wf s.
